@@ -71,7 +71,7 @@ try:
         dest = os.path.join('/verif/seeded', name)
         os.makedirs(dest, exist_ok=True)
         for f in ('patch.diff', 'demo.py', 'README.md'):
-            if os.path.exists(os.path.join(seed_dir, f)):
+            if os.path.exists(os.path.join(seed_dir, f)) and os.path.realpath(seed_dir) != os.path.realpath(dest):
                 shutil.copy(os.path.join(seed_dir, f), os.path.join(dest, f))
         meta_path = os.path.join(dest, 'meta.json')
         meta = {}
